@@ -55,6 +55,14 @@ def run18(tier):
         cfgs = ["fp:%s:%d:2:%d" % (t, p, d) for t in ("int", "long", "cpp_int") for p in (2, 3, 5, 7) for d in (2, 3)]
     r1 = vlib.run_harness(bf, fa + ["--seed", vlib.seed()])
     c.add_run(r1, "fp/primes argument boxes " + r1["args"], None, replay={"harness": "fp_enum"})
+    # the same under the library's other build configurations (fp.hpp and spvecfp.hpp consult PARMCB_LOGGING / PARMCB_INVARIANTS_CHECK)
+    for tag, kw in (("log", dict(logging=True)), ("noinv", dict(invariants=False))):
+        bfc = vlib.build("fp_enum_cfg_" + tag, "fp_enum.cpp", libs=(), cfg=vlib.gen_config(**kw))
+        bsc = vlib.build("spvec_bfs_cfg_" + tag, "spvec_bfs.cpp", flags=vlib.BASE_FLAGS + ["-fno-access-control"], libs=(), cfg=vlib.gen_config(**kw))
+        r = vlib.run_harness(bfc, ["--gcd-box", 64, "--inv-pmax", 64, "--prime-max", 100000, "--seed", vlib.seed()])
+        c.add_run(r, "fp/primes argument boxes [build configuration %s] %s" % (tag, r["args"]), None, replay={"harness": "fp_enum"})
+        r = vlib.run_harness(bsc, ["--configs", "fp:long:3:2:2,fp:int:5:2:2,fp:cpp_int:2:2:3"])
+        c.add_run(r, "SpVecFP BFS [build configuration %s] %s" % (tag, r["args"]), None, replay={"harness": "spvec_bfs"})
     r2 = vlib.run_harness(bs, ["--configs", ",".join(cfgs)])
     c.add_run(r2, "SpVecFP BFS to fixpoint, configs P:p:R:D = " + ",".join(cfgs), None, replay={"harness": "spvec_bfs"})
     c.traces_validated = r2.get("transitions", 0)
